@@ -264,7 +264,7 @@ CLAIMS["C01"] = dict(
         "(C01_generated_parser_implements_the_source_grammar_with_explicit_actions): the source semantics' actions interpreted as "
         "Sem/PegEval.v documents (substituted text, documented item names), under two stated hypotheses on the action interpreter "
         "(independence of earlier alternatives' leftover locals; never a falsy value -- the C05 finding), for every module with the "
-        "decidable reads_back_with_actions rs M = true (floor of 8 shapes; coverage count in the evidence). (5) Grammars with invalid_ "
+        "decidable reads_back_with_actions rs M = true (floor of 10 shapes; coverage count in the evidence). (5) Grammars with invalid_ "
         "rules, first pass (C01_first_pass_implements_the_grammar_without_its_invalid_alternatives): composed with C12's stripping "
         "theorem, from a state with error mode off the parser implements the grammar without the alternatives mentioning invalid_ rules "
         "(also with the cache on: C01_cached_first_pass_...); second pass (C01_second_pass_implements_the_full_grammar, via "
@@ -272,7 +272,7 @@ CLAIMS["C01"] = dict(
         "carry their own action (bare ones are emitted with the UNREACHABLE filler). The "
         "condition is evaluated in Coq on the generator model's output for a floor of 21 action-free shapes (must hold) and for every "
         "explored grammar (coverage count in the evidence; all explored action-free random grammars are inside). Partial: "
-        "left recursion, the second pass over invalid_ rules, LOCATIONS, a cut together with an action, forced items over nullable or forced operands, and the completeness "
+        "left recursion, the second pass over bare invalid_ alternatives, LOCATIONS, *_without_invalid rules, forced items over nullable or forced operands, and the completeness "
         "direction (the parser returns whenever the semantics derives) are not theorems; for those the equality is machine-checked case "
         "by case. Known finding: lookahead over a forced item consumes.")
 CLAIMS["C19"] = dict(
